@@ -31,9 +31,29 @@ class WouldBlock(BaseException):
 
 
 class NoBlockQueue(_queue.Queue):
-  """a Queue whose blocking calls raise when they would block forever"""
+  """a Queue whose blocking calls raise when they would block forever - and whose caller is stopped when it keeps asking /
+  putting without end (a posting call that spins is a posting call that never returns): more than SPIN calls of qsize / put /
+  full since the harness last looked at the queue"""
+  SPIN = 20000
+  calls = 0
+
+  def _count(self):
+    self.calls += 1
+    if self.calls > self.SPIN:
+      self.calls = 0
+      raise WouldBlock('the call asked the wake-up token queue more than %d times without returning (it spins)' % self.SPIN)
+
+  def qsize(self):
+    self._count()
+    return _queue.Queue.qsize(self)
+
+  def full(self):
+    self._count()
+    return _queue.Queue.full(self)
+
   def put(self, item, block=True, timeout=None):
-    if block and timeout is None and self.maxsize > 0 and self.qsize() >= self.maxsize:
+    self._count()
+    if block and timeout is None and self.maxsize > 0 and _queue.Queue.qsize(self) >= self.maxsize:
       raise WouldBlock('put on a full queue')
     return _queue.Queue.put(self, item, block, timeout)
 
@@ -101,7 +121,10 @@ class Target:
     return list(self.ld.deque)
 
   def tokens(self):
-    return None if self.kind == 'hsm' else self.ld.locking_queue.qsize()
+    if self.kind == 'hsm':
+      return None
+    self.ld.locking_queue.calls = 0         # the harness looks at the queue: the spin count of the next call starts here
+    return _queue.Queue.qsize(self.ld.locking_queue)
 
   def do(self, op, x):
     if self.kind == 'ld':
